@@ -455,6 +455,8 @@ class Model(Immutable):
 
     @cache_method
     def __hash__(self):
+        iie = self._initial_individual_estimates
+        iie_hash = hash_df_runtime(iie) if iie is not None else None
         return hash(
             (
                 self._parameters,
@@ -463,7 +465,7 @@ class Model(Immutable):
                 self._dependent_variables,
                 self._observation_transformation,
                 self._execution_steps,
-                self._initial_individual_estimates,
+                iie_hash,
                 self._datainfo,
                 self._value_type,
             )
